@@ -511,6 +511,18 @@ impl CompositeValidator {
             });
         }
         self.validate_shard_id(msg.shard_id, "TxPrepareResponse")?;
+        if let crate::network::TxVote::Yes { delta, .. } = &msg.vote {
+            self.embedding_validator
+                .validate_structure(delta, "vote delta")?;
+        }
+        Ok(())
+    }
+
+    fn validate_data_merge_response(&self, msg: &crate::network::DataMergeResponse) -> Result<()> {
+        if let Some(embedding) = &msg.state_embedding {
+            self.embedding_validator
+                .validate_structure(embedding, "state_embedding")?;
+        }
         Ok(())
     }
 
@@ -722,6 +734,7 @@ impl MessageValidator for CompositeValidator {
             Message::QueryRequest(m) => self.validate_query_request(m),
             Message::QueryResponse(m) => self.validate_query_response(m),
             Message::SignedGossip(m) => self.validate_signed_gossip(m),
+            Message::DataMergeResponse(m) => self.validate_data_merge_response(m),
             // These message types are validated elsewhere or have no additional constraints
             Message::TimeoutNow(_)
             | Message::BlockResponse(_)
@@ -731,7 +744,6 @@ impl MessageValidator for CompositeValidator {
             | Message::MergeAck(_)
             | Message::ViewExchange(_)
             | Message::DataMergeRequest(_)
-            | Message::DataMergeResponse(_)
             | Message::TxReconcileRequest(_)
             | Message::TxReconcileResponse(_)
             | Message::MergeFinalize(_) => Ok(()),
